@@ -117,6 +117,16 @@ class DU:
         self._canon = {}
         self._val = {}
 
+    def has_partial_writes(self, l):
+        pw = getattr(self, "_pw", None)
+        if pw is None:
+            pw = set()
+            for bid, idx, pk, kind in self.writes:
+                if pk[1] or kind == "mutref":
+                    pw.add(pk[0])
+            self._pw = pw
+        return l in pw
+
     def unique_def(self, l):
         d = self.defs.get(l)
         if d is not None and len(d) == 1 and (l > self.fn.nargs or l == 0):
@@ -209,9 +219,9 @@ class DU:
         c = self.canon(pk)
         if c != pk and not c[1]:
             return self.val_place(c, depth + 1)
-        # field of a unique-def aggregate / tuple
+        # field of a unique-def aggregate / tuple (only when no field of that local is ever written separately)
         d = self.unique_def(c[0])
-        if d is not None and d[0] == "assign" and d[3]["k"] == "aggregate" and c[1] and c[1][0][0] == "f" and len(c[1]) == 1:
+        if d is not None and d[0] == "assign" and d[3]["k"] == "aggregate" and c[1] and c[1][0][0] == "f" and len(c[1]) == 1 and not self.has_partial_writes(c[0]):
             ops = d[3]["ops"]
             i = c[1][0][1]
             if i < len(ops):
